@@ -15,6 +15,11 @@ from common import *
 import c03_caps
 
 COQ_FILES = ['Lib/Str.v', 'Gen/C03Caps.v', 'C03/Caps.v', 'C03/Validate.v', 'C03/Props.v']
+# value-level half over the evaluator model (coq/theories/Expr, shared with C04): values are data or generator objects,
+# attribute access and calls are closed, evaluation only rebinds its own binders, rejected trees are never evaluated, and the
+# model's node / function / method tables equal the ones regenerated from the source
+COQ_FILES_VALUES = ['Lib/Str.v', 'Gen/C03Caps.v', 'Expr/StrOps.v', 'Expr/Date.v', 'Expr/Syntax.v', 'Expr/Funcs.v', 'Expr/Eval.v',
+                    'C04/Proofs.v', 'C04/NameCase.v', 'C03/ValueProofs.v', 'C03/ValueData.v', 'C03/ValueFrame.v', 'C03/ValueProps.v']
 IMPL = os.path.join(os.path.dirname(os.path.abspath(__file__)), 'impl_c03.py')
 
 
@@ -246,13 +251,17 @@ def main(tier):
     tfails = regen_gen()
     res = run.proof_step(COQ_FILES, extra_trusted=['tools/c03_caps.py (syntactic extractor, fail closed)',
                                                    'harness/c03.py + impl_c03.py (audit hook, type checks)'])
+    res2 = run.proof_step(COQ_FILES_VALUES, extra_trusted=['coq/theories/Expr (hand model of the evaluator, tied to the code by the C04 correspondence)'])
     broken = []
     if tfails:
+        run.cov['discharged'] = 0
         broken.append({'kind': 'translation-failure', 'detail': tfails})
     elif not res['ok']:
         broken.append({'kind': 'broken-obligation', 'detail': first_error(res['log'])})
-    if res['hygiene']:
-        broken.append({'kind': 'hygiene', 'detail': res['hygiene']})
+    elif not res2['ok']:
+        broken.append({'kind': 'broken-obligation', 'detail': first_error(res2['log'])})
+    if res['hygiene'] or res2['hygiene']:
+        broken.append({'kind': 'hygiene', 'detail': res['hygiene'] + res2['hygiene']})
 
     texts = gen_texts(run.seed, tier)
     results = run_chunks(texts)
@@ -271,7 +280,7 @@ def main(tier):
                                     'broken': broken}, signature=sig):
             reported += 1
     model_idx = []
-    if not tfails and res['ok']:
+    if not tfails and res['ok'] and res2['ok']:
         bad, model_idx, err = model_validate(results)
         if bad is None:
             broken.append({'kind': 'broken-correspondence', 'obligation': 'validate(model) vs parse_expression accept/reject',
